@@ -29,7 +29,13 @@ Definition render_item (value : char -> list char) (i : item) : list char :=
   | IFlush => []
   | IDir d ds j => pad (width_ref ds) j (value d)
   end.
-Definition render_ref (value : char -> list char) (l : list item) : list char := concat (map (render_item value) l).
+(* every item in turn; \c ends the output *)
+Fixpoint render_ref (value : char -> list char) (l : list item) : list char :=
+  match l with
+  | [] => []
+  | IFlush :: _ => []
+  | i :: r => render_item value i ++ render_ref value r
+  end.
 
 Definition wf_item (i : item) : bool :=
   match i with
